@@ -84,8 +84,38 @@ fn fingerprint(name: &str, metas: Vec<(&'static str, MetaType)>) {
     println!("{}_retained_nodocs kept={} bytes={}", name, map.len(), hex(&kept.encode()));
 }
 
+/// C18 across configurations: the outcome of path construction for a fixed probe list
+fn path_probes() {
+    let idents = ["Planet", "r#type", "r#r#a", "a b", "", "x7", "7x", "_", "a\u{7f}", "x²"];
+    let modules = ["hello::world", "hello:world", "a:b:c", "a", "", "a::", "::a", "r#mod::x", "a::b::c::d", "a:::b"];
+    let mut out = String::new();
+    for m in modules {
+        for i in idents {
+            let r = std::panic::catch_unwind(|| scale_info::Path::new(i, m));
+            match r {
+                Ok(p) => out.push_str(&format!("[{}]", p.segments.join("|"))),
+                Err(_) => out.push('!'),
+            }
+        }
+        out.push(';');
+    }
+    for segs in [vec![], vec!["a"], vec!["a", ""], vec!["r#a", "b"], vec!["a:b"], vec!["é"]] {
+        out.push_str(&format!("{:?};", scale_info::Path::from_segments(segs).map(|p| p.segments)));
+    }
+    println!("paths bytes={}", hex(out.as_bytes()));
+}
+
 fn main() {
+    std::panic::set_hook(Box::new(|_| {}));
+    path_probes();
+    // a second registry on the same thread, roots in the opposite order, before and after the main one
+    {
+        let mut rev = gen::metas();
+        rev.reverse();
+        fingerprint("base_reversed_first", rev);
+    }
     fingerprint("base", gen::metas());
+    fingerprint("base_again", gen::metas());
     #[cfg(feature = "bit-vec")]
     fingerprint("bitvec", gen::metas_bitvec());
 }
